@@ -757,6 +757,17 @@ def record_case(data, font_number, pf, req, optd, rng, kind, label, nprobe=40, n
         cls1 = {}
         if "GDEF" in res and res["GDEF"].table.GlyphClassDef is not None:
             cls1 = res["GDEF"].table.GlyphClassDef.classDefs
+        cs0 = cs1 = None
+        if "CFF " in orig and "CFF " in res:  # CFF charstring widths (CID fonts: they depend on the glyph's font dict)
+            cs0, cs1 = orig["CFF "].cff[0].CharStrings, res["CFF "].cff[0].CharStrings
+
+        def cff_width(cs, name):
+            from fontTools.pens.basePen import NullPen
+
+            c = cs[name]
+            c.draw(NullPen())
+            return int(round(c.width * 1000))
+
         for g in cand:
             new = imap[g - 1]
             if new < 0 or new >= nres:
@@ -765,6 +776,7 @@ def record_case(data, font_number, pf, req, optd, rng, kind, label, nprobe=40, n
             m1 = hm1.get(names1[new], (0, 0))
             rec = {"g": g, "adv": [m0[0], m1[0]], "lsb": [m0[1], m1[1]], "loc": [],
                    "cls": [cls0[g - 1] if cls0 else 0, int(cls1.get(names1[new], 0))]}
+            rec["cw"] = [cff_width(cs0, order0[g - 1]), cff_width(cs1, names1[new])] if cs0 is not None else [0, 0]
             for li, (A, B) in shapers.items():
                 oa = intern(repr(A.draw_glyph(g - 1)))
                 ob = intern(repr(B.draw_glyph(new)))
@@ -1150,13 +1162,13 @@ def run(chk):
             files += [(p, i) for i in range(nf)]
         else:
             files.append((p, -1))
-    # whole-font TTX of the corpus: the subsetter's own test inputs and every variable font (the binaries hold only
-    # five tiny variable fonts, all with an explicit HVAR advance map)
+    # whole-font TTX of the corpus: the subsetter's own test inputs, every variable font (the binaries hold only
+    # five tiny variable fonts, all with an explicit HVAR advance map) and the CID-keyed masters
     for p in F.whole_font_ttx():
         with open(p, "rb") as f:
             isvar = b"<fvar>" in f.read()
-        if isvar or os.sep + os.path.join("Tests", "subset", "data") + os.sep in p:
-            files.append((p, -1))
+        if isvar or os.sep + os.path.join("Tests", "subset", "data") + os.sep in p or os.path.basename(p).startswith("MasterSet_Kanji-w"):
+            files.append((p, -1))  # MasterSet_Kanji: the only CID-keyed fonts whose font dicts interleave
     if os.environ.get("VERIF_C07_FILTER"):  # development aid: comma-separated substrings of corpus paths
         subs = os.environ["VERIF_C07_FILTER"].split(",")
         files = [(p, i) for p, i in files if any(x in p for x in subs)]
